@@ -1,5 +1,5 @@
 (* C07/Props.v -- the property theorems, and nothing else.  Each is closed by [exact] of a lemma of
-   Proofs.v and followed by Print Assumptions.
+   Proofs.v / Proofs2.v and followed by Print Assumptions.
 
    Reading.  sc = the cluster-assignment vector; a "group" of id c is
    members sc ids c = [ids[i] | i ascending, sc[i] = c]  (ids = np.arange(len(sc)) unless a spike-id
@@ -7,7 +7,7 @@
    is an IndexError).  All statements are over Z: no dtype wrap-around is modelled (the only
    subtraction of the code, np.diff of the sorted ids, is of sorted neighbours). *)
 From Coq Require Import ZArith List Lia Bool Arith Permutation Sorted.
-From PV Require Import Base.NpSort C07.Model C07.Spec C07.Proofs.
+From PV Require Import Base.NpSort C07.Model C07.Spec C07.Proofs C07.Proofs2.
 Import ListNotations.
 Open Scope Z_scope.
 
@@ -71,3 +71,138 @@ Example C07_ex_groups_ids :
 Proof. vm_compute. reflexivity. Qed.
 Example C07_ex_in_clusters : spikes_in_clusters [7; 0; 3; 3; 0; 7; 2] [9; 3; -1; 0; 3] = [1; 2; 3; 4].
 Proof. vm_compute. reflexivity. Qed.
+
+(* ======================= stage 2: the helpers ======================= *)
+
+(* _unique (bincount / nonzero): for EVERY integer vector the call succeeds and returns the strictly
+   increasing list of the distinct ids that are >= 0 -- negative ids ("unclustered") are dropped
+   silently, exactly as x[x >= 0] does -- and that list is the only one meeting the definition. *)
+Theorem C07_unique : forall (x : list Z),
+  exists r, unique x = Some r /\ Unique_Spec x r /\ forall r', Unique_Spec x r' -> r' = r.
+Proof. exact unique_thm. Qed.
+Print Assumptions C07_unique.
+
+(* _index_of, complete behaviour for a distinct, non-negative, possibly unsorted lookup.  With
+   N = max(lookup) + 2 the size of the table (2 for an empty lookup):
+   - every queried id in [-N, N) gives a result, described by IndexOf1: a member of the lookup gives
+     its position (lookup[k] = x); -1 and max+1 reach the last cell and give -1; any other id in
+     range -- a NON-member -- gives 0, i.e. it is silently reported as "position 0"; ids in [-N, -2]
+     wrap around (Python negative indexing) and are answered as x + N would be;
+   - any queried id outside [-N, N) is an error (IndexError). *)
+Theorem C07_index_of_full : forall (arr lookup : list Z),
+  NoDup lookup -> Forall (fun v => 0 <= v) lookup ->
+  (Forall (fun x => - table_len lookup <= x < table_len lookup) arr ->
+     exists r, index_of arr lookup = Some r /\ IndexOf_Full arr lookup r) /\
+  (Exists (fun x => x < - table_len lookup \/ table_len lookup <= x) arr -> index_of arr lookup = None).
+Proof. exact index_of_full. Qed.
+Print Assumptions C07_index_of_full.
+
+(* the stated use: every queried id is a member or -1.  Then lookup[index_of x] = x for the members,
+   -1 maps to -1, and the result is the only list with that property. *)
+Theorem C07_index_of : forall (arr lookup : list Z),
+  NoDup lookup -> Forall (fun v => 0 <= v) lookup -> Forall (fun x => x = -1 \/ In x lookup) arr ->
+  exists r, index_of arr lookup = Some r /\ IndexOf_Spec arr lookup r /\
+            forall r', IndexOf_Spec arr lookup r' -> r' = r.
+Proof. exact index_of_members. Qed.
+Print Assumptions C07_index_of.
+
+(* _flatten_per_cluster: for a non-empty dict, the strictly increasing list of the distinct spike ids
+   of all groups (the sorted union), unique; np.concatenate of an empty dict is an error. *)
+Theorem C07_flatten : forall (d : list group),
+  (d <> [] -> exists r, flatten_per_cluster d = Some r /\ Flatten_Spec d r /\
+                        forall r', Flatten_Spec d r' -> r' = r) /\
+  (d = [] -> flatten_per_cluster d = None).
+Proof. exact flatten_thm. Qed.
+Print Assumptions C07_flatten.
+
+(* grouped_mean, as the pair of exact operands (sum, count) of its final division: for non-negative
+   ids and data of the same length there is one pair per distinct id, ids increasing, with
+   sum = the sum of the data over the group of the id, count = the size of the group (> 0);
+   the result is the only list meeting the definition. *)
+Theorem C07_grouped_mean : forall (arr sc : list Z),
+  length arr = length sc -> Forall (fun c => 0 <= c) sc ->
+  exists r, grouped_mean arr sc = Some r /\ GMean_Spec arr sc r /\
+            forall r', GMean_Spec arr sc r' -> r' = r.
+Proof. exact grouped_mean_thm. Qed.
+Print Assumptions C07_grouped_mean.
+
+(* the guards of grouped_mean as the code behaves: a length mismatch is an AssertionError; a vector
+   containing the "unclustered" id -1 (and nothing below it) is a ValueError from np.bincount --
+   the -1 spikes are NOT skipped.  (Ids <= -2 are outside every documented use: _index_of wraps them
+   into the table, see C07_ex_grouped_mean_wraps below.) *)
+Theorem C07_grouped_mean_guard : forall (arr sc : list Z),
+  (length arr <> length sc -> grouped_mean arr sc = None) /\
+  (length arr = length sc -> Forall (fun c => -1 <= c) sc -> In (-1) sc -> grouped_mean arr sc = None).
+Proof. intros arr sc. split; [apply grouped_mean_len|apply grouped_mean_unclustered]. Qed.
+Print Assumptions C07_grouped_mean_guard.
+
+(* get_template_counts: for EVERY cluster id c (present or absent) and 0 <= n_templates, with
+   sel = the templates of the spikes of c in spike order: if they are non-negative the result has
+   max(max(sel) + 1, n_templates) cells (n_templates cells when c is absent) and cell k is the number
+   of spikes of c with template k; a negative template among them is a ValueError. *)
+Theorem C07_template_counts : forall (sc st : list Z) (nt c : Z),
+  0 <= nt -> (length sc <= length st)%nat ->
+  (Forall (fun t => 0 <= t) (members sc st c) ->
+     exists r, get_template_counts sc st nt c = Some r /\ Counts_Spec sc st nt c r /\
+               forall r', Counts_Spec sc st nt c r' -> r' = r) /\
+  (Exists (fun t => t < 0) (members sc st c) -> get_template_counts sc st nt c = None).
+Proof. intros sc st nt c _. exact (template_counts_thm sc st nt c). Qed.
+Print Assumptions C07_template_counts.
+
+(* the boolean comparator clauses 24-28 that Corr.v evaluates on phylib's outputs imply the
+   declarative statements (for clause 27 the comparator compares the observed floats with the
+   float64 quotients of gmean_ref, the only list satisfying GMean_Spec) *)
+Theorem C07_checker_sound : forall (x arr lookup sc st r : list Z) (d : list group) (nt c : Z) (g : list gm),
+  (unique_b x r = true -> Unique_Spec x r) /\
+  (indexof_b arr lookup r = true -> IndexOf_Spec arr lookup r) /\
+  (flatten_b d r = true -> Flatten_Spec d r) /\
+  ((length sc <= length arr)%nat -> gmean_b arr sc g = true -> GMean_Spec arr sc g) /\
+  ((length sc <= length arr)%nat -> GMean_Spec arr sc (gmean_ref arr sc) /\
+                                    forall g', GMean_Spec arr sc g' -> g' = gmean_ref arr sc) /\
+  (counts_b sc st nt c r = true -> Counts_Spec sc st nt c r).
+Proof.
+  intros. split; [apply unique_b_sound|]. split; [apply indexof_b_sound|]. split; [apply flatten_b_sound|].
+  split; [apply gmean_b_sound|]. split; [|apply counts_b_sound].
+  intros Hl. split; [now apply gmean_ref_spec|]. intros g'. apply gmean_spec_unique.
+Qed.
+Print Assumptions C07_checker_sound.
+
+(* ---- non-vacuity of the stage-2 theorems ---- *)
+Example C07_ex_unique : unique [7; -1; 3; 3; 0; -5; 7] = Some [0; 3; 7] /\ unique [-1; -1] = Some [].
+Proof. vm_compute. split; reflexivity. Qed.
+(* unsorted lookup; members and -1; then a non-member (0 is returned), max+1 (-1), -2 wrapped to 7 (position 0),
+   -9 wrapped to 0 (position 2); out of range *)
+Example C07_ex_index_of :
+  index_of [7; 0; 3; -1; 2] [7; 3; 0; 2] = Some [0; 2; 1; -1; 3] /\
+  index_of [5; 8; -2; -9] [7; 3; 0; 2] = Some [0; -1; 0; 2] /\
+  index_of [9] [7; 3; 0; 2] = None /\ index_of [-10] [7; 3; 0; 2] = None /\
+  table_len [7; 3; 0; 2] = 9.
+Proof. vm_compute. repeat split; reflexivity. Qed.
+Example C07_ex_flatten :
+  flatten_per_cluster [mkg 0 [5; 1; 5]; mkg 1 [1; 0]] = Some [0; 1; 5] /\ flatten_per_cluster [] = None.
+Proof. vm_compute. split; reflexivity. Qed.
+Example C07_ex_grouped_mean :
+  grouped_mean [1; 2; 3; 4; 5; 6; 8] [7; 0; 3; 3; 0; 7; 2] =
+  Some [mkgm 7 2; mkgm 8 1; mkgm 7 2; mkgm 7 2] /\
+  gmean_ref [1; 2; 3; 4; 5; 6; 8] [7; 0; 3; 3; 0; 7; 2] = [mkgm 7 2; mkgm 8 1; mkgm 7 2; mkgm 7 2] /\
+  grouped_mean [1; 2; 3] [-1; 2; 2] = None /\ grouped_mean [1; 2] [2; 2; 2] = None.
+Proof. vm_compute. repeat split; reflexivity. Qed.
+(* outside the guard of C07_grouped_mean: an id <= -2 is wrapped by _index_of and its datum is silently
+   added to another cluster (here -2 is counted with cluster 3, -3 with cluster 0's cell "position 0") *)
+Example C07_ex_grouped_mean_wraps :
+  grouped_mean [10; 1; 2] [-2; 3; 3] = Some [mkgm 13 3] /\
+  grouped_mean [10; 1; 2] [-3; 0; 3] = Some [mkgm 11 2; mkgm 2 1].
+Proof. vm_compute. split; reflexivity. Qed.
+Example C07_ex_template_counts :
+  get_template_counts [7; 0; 3; 3; 0; 7; 2] [1; 1; 0; 2; 1; 0; 0] 4 3 = Some [1; 0; 1; 0] /\
+  get_template_counts [7; 0; 3; 3; 0; 7; 2] [1; 1; 0; 2; 1; 0; 0] 4 5 = Some [0; 0; 0; 0] /\   (* absent cluster *)
+  get_template_counts [1; 1] [0; 4] 3 1 = Some [1; 0; 0; 0; 1] /\                              (* template >= n_templates *)
+  get_template_counts [1; 1] [0; -4] 3 1 = None.
+Proof. vm_compute. repeat split; reflexivity. Qed.
+Example C07_ex_checkers :
+  unique_b [7; -1; 3; 3; 0] [0; 3; 7] = true /\ unique_b [7; -1; 3; 3; 0] [0; 3] = false /\
+  indexof_b [7; -1; 2] [7; 3; 0; 2] [0; -1; 3] = true /\ indexof_b [7; -1; 2] [7; 3; 0; 2] [0; -1; 2] = false /\
+  flatten_b [mkg 0 [5; 1; 5]; mkg 1 [1; 0]] [0; 1; 5] = true /\
+  gmean_b [1; 2; 4] [1; 1; 1] [mkgm 7 3] = true /\ gmean_b [1; 2; 4] [1; 1; 1] [mkgm 7 2] = false /\
+  counts_b [1; 1] [0; 0] 3 1 [2; 0; 0] = true /\ counts_b [1; 1] [0; 0] 3 1 [2] = false.
+Proof. vm_compute. repeat split; reflexivity. Qed.
